@@ -1,7 +1,7 @@
 import QR.Proofs.Stream
 import QR.Proofs.SourceTieC06
 import QR.Proofs.Pinned
-import QR.Proofs.SourceTieC20
+import QR.Proofs.SourceTieC06w
 import QR.Proofs.SourceTieA5
 import QR.Proofs.SourceTieT2
 import QR.Props.C02
